@@ -2,7 +2,7 @@
 Same op lines and answers as `DrvCLFees`; new: `incentive <id> <denom> <amount> <rate> <startNs> <uptimeIdx>`,
 `advance <ns>`, `sync`, `icollect <sender> <id>`, `idump` (accumulators, tick trackers, incentive records, position
 uptime records, claimable incentives, incentive balances); `reset` takes two more optional arguments (incentive scaling
-factor, number of authorised uptimes). -/
+factor, bit mask of the authorised uptimes). -/
 import OsmoVerif.Model.CLInc
 import OsmoVerif.Model.CLFullGenesis
 import OsmoVerif.Model.DrvCLFees
@@ -118,6 +118,7 @@ def stepCLInc (s : Full) (op : String) (args : List String) : Full × String :=
     | some s' => (s', "ok")
     | none => (s, "panic")
   | "nextid", [] => let r := stepCLPool s.fees.pool op args; (s, r.2)
+  | "setnextid", [_] => let r := stepCLPool s.fees.pool op args; ({ s with fees := { s.fees with pool := r.1 } }, r.2)
   -- F41: what `GetFullRangeLiquidityInPool` answers on a node imported NOW (Σ liquidity of the full-range positions); the running
   -- chain's record (it follows `SetPosition`) lives in the layered state `FullG` of Model/CLFullGenesis, not in this engine's state
   | "fullrange-imported", [] => (s, s!"ok {sumFullRange (sortPosById s.fees.pool.positions)}")
